@@ -4,5 +4,18 @@ package wdsim
 
 func init() {
 	Profiles["C01"] = []Profile{{Name: "history", Weight: 1, Gen: GenC01}}
-	Profiles["C17"] = []Profile{{Name: "history", Weight: 1, Gen: GenC01}}
+	Profiles["C02"] = []Profile{
+		{Name: "refusals", Weight: 4, Gen: GenC02Refusals},
+		{Name: "broken-uploads", Weight: 4, Gen: GenC02Broken},
+		{Name: "disk-faults", Weight: 3, Gen: GenC02Disk},
+		{Name: "broken-uploads-every-offset", Weight: 1, Gen: GenC02Exhaustive},
+	}
+	Profiles["C03"] = []Profile{{Name: "hostile-paths", Weight: 1, Gen: GenC03}}
+	Profiles["C04"] = []Profile{{Name: "conditional", Weight: 1, Gen: GenC04}}
+	Profiles["C17"] = []Profile{
+		{Name: "history", Weight: 2, Gen: GenC01},
+		{Name: "disk-error-kinds", Weight: 4, Gen: GenC17Disk},
+		{Name: "hostile-paths", Weight: 2, Gen: GenC03},
+		{Name: "refusals", Weight: 2, Gen: GenC02Refusals},
+	}
 }
